@@ -10,6 +10,8 @@ package udp
 //  anc vectors  : abstract ancillary buffers (control messages, cut anywhere) are laid out as real bytes flush
 //                 against an inaccessible page (on either side) and parsed by the real parseRecvCmsg: the size it
 //                 returns is compared, and any access outside the buffer faults and is reported.
+//  loop vectors: histories of recvmmsg rounds over reused batch slots, played through the real StdConn.ListenOut on
+//                 loopback sockets (zz_verif_c27_loop_test.go).
 //  random       : seeded ancillary buffers with arbitrary contents (never read outside) and seeded (len, seg)
 //                 pairs at full width checked against the law of the statement.
 
@@ -229,7 +231,12 @@ func TestVerif_C27(t *testing.T) {
 	}
 	g := c27NewGuard(t)
 	n := 0
+	var loopLines [][]byte
 	vReadNDJSON(t, "vectors.ndjson", func(line []byte) {
+		if bytes.Contains(line, []byte(`"kind":"loop"`)) { // histories of the receive loop: zz_verif_c27_loop_test.go
+			loopLines = append(loopLines, append([]byte(nil), line...))
+			return
+		}
 		var v c27Vec
 		if err := json.Unmarshal(line, &v); err != nil {
 			t.Fatalf("vector: %v: %s", err, line)
@@ -290,6 +297,9 @@ func TestVerif_C27(t *testing.T) {
 			t.Fatalf("unknown vector kind %q", v.In.Kind)
 		}
 	})
+
+	// ---- the receive loop with reused batch slots, on real loopback sockets
+	c27RunLoop(t, res, loopLines)
 
 	// ---- seeded: arbitrary ancillary contents never make the parser leave the buffer
 	rnd := vRand()
